@@ -472,7 +472,7 @@ void verif_run(verif::Args const& a, verif::Evidence& ev)
               "arguments -> after every call every bin equals the model's count, sum() equals the number of counted pixels; after the last call cumulative_histogram, sub_histogram<axes>(), sub_histogram<axis>(range), normalize, "
               "sorted/min/max keys against their definitions. std: vector / array<256> / map fillers and their cumulative versions against the sparse histogram of the gray view, two fills. "
               "non-trivial (history): at least two calls or a bin width above 1, and a non-empty first view; distinct = all keys.";
-    int n = th ? 400000 : 30000;
+    int n = th ? 1200000 : 30000;
     verif::rc_search(ev, a, "history", n, 60, gen_history, run_history, [](Case const& c) { auto const& l = c.list("steps"); return l[0] > 0 && l[1] > 0 && (l.size() > 18 || l[2] > 1); }, {"cfg", "steps", "rlo", "rhi"});
     verif::rc_search(ev, a, "std", n / 4, 60, gen_std, run_std, [](Case const& c) { return c.get("w") > 0 && c.get("h") > 0; }, {"type", "w", "h", "w2", "h2", "accumulate", "range"});
 }
